@@ -12,7 +12,7 @@ import (
 )
 
 func init() {
-	register("C17", c17Tables, c17Cookie, c17Keep, c17Slot, c17Fill, c04Slots, c07Order, func(e *Env) {
+	register("C17", c17Tables, c17Cookie, c17Keep, c17Slot, c17Fill, c17Stale, c17CTL, c04Slots, c07Order, func(e *Env) {
 		dispatchAgreement(e, "C17.dispatch", func(fi *core.FuncInfo) bool { return fi.Obj.Name() == "ParseBytes" && fi.Pkg.PkgPath == pkgProto })
 	})
 }
@@ -226,7 +226,17 @@ func c17Cookie(e *Env) {
 		})
 		return out
 	}
-	emitted, parsed := collect(wr), collect(pa)
+	// both sides may have moved part of their work into same-package helpers
+	collectAll := func(fi *core.FuncInfo) map[*types.Var]bool {
+		out := map[*types.Var]bool{}
+		for _, hf := range withHelpers(w, fi, 2) {
+			for v := range collect(hf) {
+				out[v] = true
+			}
+		}
+		return out
+	}
+	emitted, parsed := collectAll(wr), collectAll(pa)
 	var names []string
 	byName := map[string]*types.Var{}
 	for v := range emitted {
